@@ -6,6 +6,10 @@
   (SFModel/Bus.lean) and the mtime state machine of `Store` (helper lemmas: BusLemmas.lean).
   The harness compares the executable model with the real `Bus` / `Store` objects after every
   step of every generated history.
+
+  `pinnedReader : Bool` selects the `_store_reader` variant: `false` = the code (`config[label]`),
+  `true` = the reader of the pinned tree (`config[labels]`, repaired in /repo; historical).  The bookkeeping
+  theorems hold for both and keep the parameter; the faithfulness theorems are stated for `false`.
 -/
 import SFModel.BusLemmas
 
@@ -27,9 +31,9 @@ abbrev Faithful (store : StoreFn φ) : Nat → φ → Prop := fun l f => f = eag
     duplicates; when max_persist is set the loaded labels are exactly the members of the LRU list, the number
     of loaded frames is at most max_persist and equals the length of the LRU list; the loaded flags agree
     with the cells of the Series; without max_persist there is no LRU list. -/
-theorem bus_inv (store : StoreFn φ) (genKey : Bool) (st : StoreSt) (labels : List Nat) (mp : Option Nat)
+theorem bus_inv (store : StoreFn φ) (pinnedReader : Bool) (st : StoreSt) (labels : List Nat) (mp : Option Nat)
     (hn : labels.Nodup) (s0 s : BusSt φ) (ops : List BusOp)
-    (h0 : BusSt.fromStore labels mp = .ok s0) (h : BusSt.run store genKey st s0 ops = .ok s) :
+    (h0 : BusSt.fromStore labels mp = .ok s0) (h : BusSt.run store pinnedReader st s0 ops = .ok s) :
     s.lru.Nodup ∧ s.loaded = s.cache.map Option.isSome ∧ s.loadedAll = s.loaded.all id ∧
     (mp = none → s.lru = []) ∧
     (∀ k, mp = some k →
@@ -53,7 +57,7 @@ example : BusSt.run (fun _ l => l) true (StoreSt.init (some 1))
 /-- The same invariant for every Bus that can come into existence: after any successful operation whatever
     happened to the file in between, for the Bus returned by a multi-label selection and for every derived
     Bus (`drop`, `reindex`, `sort_index`, `head`, `tail`: `_derive` of a duplicate-free selection). -/
-theorem bus_inv_reach (store : StoreFn φ) (genKey : Bool) (s : BusSt φ) (h : Reach store genKey s) :
+theorem bus_inv_reach (store : StoreFn φ) (pinnedReader : Bool) (s : BusSt φ) (h : Reach store pinnedReader s) :
     Inv (Any (φ := φ)) s := by
   induction h with
   | root labels mp s hn h0 => exact (fromStore_inv hn h0).1
@@ -79,11 +83,11 @@ example : ∃ s : BusSt Nat, Reach (fun _ l => l) true s ∧ s.loaded.count true
 /-- Refinement to the abstract LRU: after an access with max_persist = k the recency list of the Bus is the
     abstract LRU (`absTouch k`: move the label to the end, drop the head when more than k are held) run over
     the addressed labels in key order — on the loading path and on the cache-hit path alike. -/
-theorem bus_lru (store : StoreFn φ) (genKey : Bool) (st : StoreSt) (s s' : BusSt φ) (key : Key)
+theorem bus_lru (store : StoreFn φ) (pinnedReader : Bool) (st : StoreSt) (s s' : BusSt φ) (key : Key)
     (r : Extracted φ) (k : Nat) (ps : List Nat)
     (hinv : Inv (Any (φ := φ)) s) (hmp : s.maxPersist = some k)
     (hpos : key.positions s.labels.length = .ok ps)
-    (h : s.extractIloc store genKey st key = .ok (s', r)) :
+    (h : s.extractIloc store pinnedReader st key = .ok (s', r)) :
     s'.lru = (pick s.labels ps).foldl (absTouch k) s.lru ∧
     (∀ (i l : Nat), s'.labels[i]? = some l → (s'.loaded[i]? = some true ↔ l ∈ s'.lru)) := by
   rcases extractIloc_spec (st := st) (k := key) hinv (fun _ => trivial) (fun _ => trivial) with
@@ -126,52 +130,42 @@ example : absTouch 2 [5, 7] 9 = [7, 9] ∧ absTouch 2 [5, 7] 5 = [7, 5] ∧ absT
 
 /-! ### bus_faithful -/
 
-/-- the reads of `_store_reader` use the label's own configuration -/
-def ReaderFaithful (store : StoreFn φ) (genKey : Bool) (mp : Option Nat) : Prop :=
-  genKey = false ∨ mp = none ∨ (∃ k, mp = some k ∧ 1 < k) ∨ ∀ l, store none l = store (some l) l
-
-theorem readerFaithful_reads {store : StoreFn φ} {genKey : Bool} {mp : Option Nat}
-    (h : ReaderFaithful store genKey mp) (l : Nat) : store (readerCfgKey genKey mp l) l = eager store l := by
-  unfold readerCfgKey eager
-  rcases h with h | h | ⟨k, h, hk⟩ | h
-  · subst h; cases mp <;> simp
-  · subst h; rfl
-  · subst h; simp [hk]
-  · cases mp with
-    | none => rfl
-    | some k => simp only; split <;> (try split) <;> simp [h l]
-
-example : ReaderFaithful (fun _ l => l : StoreFn Nat) true (some 1) := .inr (.inr (.inr fun _ => rfl))
-example : ReaderFaithful (fun ck l => (l, ck == some l) : StoreFn (Nat × Bool)) true (some 3) :=
-  .inr (.inr (.inl ⟨3, rfl, by decide⟩))
+/-- the current `_store_reader` reads every label with the label's own configuration -/
+theorem reader_reads_eager (store : StoreFn φ) (mp : Option Nat) (l : Nat) :
+    store (readerCfgKey false mp l) l = eager store l := rfl
 
 /-- Labels and their order never change, and every label loaded in the post-state maps to exactly the
-    store's frame for that label (what an eager load returns) — for every access history, provided the reads
-    of `_store_reader` use the label's configuration (always, except the `max_persist == 1` branch as written,
-    see `bus_faithful_counterexample`). -/
-theorem bus_faithful (store : StoreFn φ) (genKey : Bool) (st : StoreSt) (labels : List Nat) (mp : Option Nat)
-    (hn : labels.Nodup) (hcfg : ReaderFaithful store genKey mp) (s0 s : BusSt φ) (ops : List BusOp)
-    (h0 : BusSt.fromStore labels mp = .ok s0) (h : BusSt.run store genKey st s0 ops = .ok s) :
+    store's frame for that label (what an eager load returns) — for every access history and every
+    max_persist, for `_store_reader` as it is in the code (`config[label]`). -/
+theorem bus_faithful (store : StoreFn φ) (st : StoreSt) (labels : List Nat) (mp : Option Nat)
+    (hn : labels.Nodup) (s0 s : BusSt φ) (ops : List BusOp)
+    (h0 : BusSt.fromStore labels mp = .ok s0) (h : BusSt.run store false st s0 ops = .ok s) :
     s.labels = labels ∧ s.maxPersist = mp ∧
     ∀ (i l : Nat) (f : φ), s.labels[i]? = some l → s.cache[i]? = some (some f) → f = store (some l) l := by
   obtain ⟨hi0, hl0, hmp0, _⟩ := fromStore_inv (P := Faithful store) hn h0
-  obtain ⟨hi, hl, hmp⟩ := run_inv (P := Faithful store) (fun _ => rfl) ops s0 s hi0
-    (by intro l; rw [hmp0]; exact readerFaithful_reads hcfg l) h
+  obtain ⟨hi, hl, hmp⟩ := run_inv (P := Faithful store) (fun _ => rfl) ops s0 s hi0 (fun _ => rfl) h
   exact ⟨by rw [hl, hl0], by rw [hmp, hmp0], hi.content⟩
+
+example : ∃ s : BusSt (Nat × Bool), BusSt.run (fun ck l => (l, ck == some l)) false (StoreSt.init (some 1))
+    { labels := [0, 1], cache := [none, none], loaded := [false, false], loadedAll := false, lru := [],
+      maxPersist := some 1 } [.access .all] = .ok s ∧ s.cache = [none, some (1, true)] :=
+  ⟨{ labels := [0, 1], cache := [none, some (1, true)], loaded := [false, true], loadedAll := false, lru := [1],
+     maxPersist := some 1 }, by decide, rfl⟩
 
 /-- … and the same for one extraction from any Bus whose held frames are faithful (e.g. a derived Bus):
     the frames of the post-state and of the returned Bus are the store's frames. -/
-theorem bus_faithful_step (store : StoreFn φ) (genKey : Bool) (st : StoreSt) (s s' : BusSt φ) (key : Key)
-    (r : Extracted φ) (hinv : Inv (Faithful store) s) (hcfg : ReaderFaithful store genKey s.maxPersist)
-    (h : s.extractIloc store genKey st key = .ok (s', r)) :
+theorem bus_faithful_step (store : StoreFn φ) (st : StoreSt) (s s' : BusSt φ) (key : Key)
+    (r : Extracted φ) (hinv : Inv (Faithful store) s)
+    (h : s.extractIloc store false st key = .ok (s', r)) :
     Inv (Faithful store) s' ∧ s'.labels = s.labels ∧ ∀ d, r = .bus d → Inv (Faithful store) d := by
-  obtain ⟨h1, h2, _, h4⟩ := extractIloc_inv hinv (fun _ => rfl) (fun l => readerFaithful_reads hcfg l) h
+  obtain ⟨h1, h2, _, h4⟩ := extractIloc_inv hinv (fun _ => rfl) (fun _ => rfl) h
   exact ⟨h1, h2, fun d hd => (h4 d hd).1⟩
 
-/-- The code as written (`config[labels]` with the generator as key) is NOT faithful for max_persist = 1:
-    a two-label selection on a store whose default configuration builds a different frame delivers the
-    default-configuration frame. (`(l, true)` = built with the label's config, `(l, false)` = with the default.) -/
-theorem bus_faithful_counterexample :
+/-- HISTORICAL (pinned-tree behaviour, repaired in /repo: `config[labels]` -> `config[label]`).  The old
+    reader (`pinnedReader = true`, `readerCfgKeyPinned`) was NOT faithful for max_persist = 1: a two-label
+    selection on a store whose default configuration builds a different frame delivered the
+    default-configuration frame.  (`(l, true)` = built with the label's config, `(l, false)` = with the default.) -/
+theorem bus_faithful_pinned_reader_counterexample :
     ¬ (∀ (store : StoreFn (Nat × Bool)) (s : BusSt (Nat × Bool)),
         BusSt.run store true (StoreSt.init (some 1))
           { labels := [0, 1], cache := [none, none], loaded := [false, false], loadedAll := false, lru := [],
@@ -190,13 +184,13 @@ theorem bus_faithful_counterexample :
 
 /-- Element access returns a Frame — never the FrameDeferred placeholder — and it is an acceptable one,
     for max_persist None or ≥ 1. -/
-theorem bus_element_is_frame (store : StoreFn φ) (genKey : Bool) (st : StoreSt) (s s' : BusSt φ) (key : Key)
-    (v : Option φ) (hinv : Inv (Faithful store) s) (hcfg : ReaderFaithful store genKey s.maxPersist)
+theorem bus_element_is_frame (store : StoreFn φ) (st : StoreSt) (s s' : BusSt φ) (key : Key)
+    (v : Option φ) (hinv : Inv (Faithful store) s)
     (hk : ∀ k, s.maxPersist = some k → 1 ≤ k)
-    (h : s.extractIloc store genKey st key = .ok (s', .element v)) :
+    (h : s.extractIloc store false st key = .ok (s', .element v)) :
     ∃ p l, key.positions s.labels.length = .ok [p] ∧ s.labels[p]? = some l ∧ v = some (store (some l) l) := by
   obtain ⟨p, l, f, h1, h2, h3, h4⟩ :=
-    extractIloc_element_some hinv (fun _ => rfl) (fun l => readerFaithful_reads hcfg l) hk h
+    extractIloc_element_some hinv (fun _ => rfl) (fun _ => rfl) hk h
   exact ⟨p, l, h1, h2, by rw [h3, h4]; rfl⟩
 
 example : ∃ s' : BusSt Nat, BusSt.extractIloc (fun _ l => l) true (StoreSt.init (some 1))
@@ -207,12 +201,12 @@ example : ∃ s' : BusSt Nat, BusSt.extractIloc (fun _ l => l) true (StoreSt.ini
 
 /-- `items()` / `values` consumed completely deliver, for every label in index order, the store's Frame
     (never a placeholder), with or without max_persist (≥ 1). -/
-theorem bus_values_frames (store : StoreFn φ) (genKey : Bool) (st : StoreSt) (s s' : BusSt φ)
-    (vs : List (Option φ)) (hinv : Inv (Faithful store) s) (hcfg : ReaderFaithful store genKey s.maxPersist)
-    (hk : ∀ k, s.maxPersist = some k → 1 ≤ k) (h : s.values store genKey st = .ok (s', vs)) :
+theorem bus_values_frames (store : StoreFn φ) (st : StoreSt) (s s' : BusSt φ)
+    (vs : List (Option φ)) (hinv : Inv (Faithful store) s)
+    (hk : ∀ k, s.maxPersist = some k → 1 ≤ k) (h : s.values store false st = .ok (s', vs)) :
     vs.length = s.labels.length ∧
     ∀ (i l : Nat), s.labels[i]? = some l → vs[i]? = some (some (store (some l) l)) := by
-  have hR2 := fun l => readerFaithful_reads hcfg l
+  have hR2 : ∀ l, Faithful store l (store (readerCfgKey false s.maxPersist l) l) := fun _ => rfl
   have hcells : ∀ (t : BusSt φ), Inv (Faithful store) t → t.labels = s.labels →
       (∀ p, p < s.labels.length → t.loaded[p]? = some true) →
       t.cache.length = s.labels.length ∧
@@ -264,9 +258,9 @@ theorem bus_values_frames (store : StoreFn φ) (genKey : Bool) (st : StoreSt) (s
 /-- With an unchanged file the bookkeeping never fails: an extraction raises only for an invalid key
     (position out of range, zero slice step, repeated position), never KeyError / StopIteration / ErrorInitBus
     from the cache update or the derivation; the Bus is left untouched by a refused key. -/
-theorem bus_no_internal_error (store : StoreFn φ) (genKey : Bool) (st : StoreSt) (t : Nat) (s s' : BusSt φ)
+theorem bus_no_internal_error (store : StoreFn φ) (pinnedReader : Bool) (st : StoreSt) (t : Nat) (s s' : BusSt φ)
     (key : Key) (e : Err) (hinv : Inv (Any (φ := φ)) s) (hfile : st.file = some t) (hseen : st.seen = some t)
-    (h : s.extractIloc store genKey st key = .error (e, s')) :
+    (h : s.extractIloc store pinnedReader st key = .error (e, s')) :
     s' = s ∧ (key.positions s.labels.length = .error e ∨ e = .nonUnique) := by
   rcases extractIloc_spec (st := st) (k := key) hinv (fun _ => trivial) (fun _ => trivial) with
     ⟨s1, r1, ps1, h1, _⟩ | ⟨e1, s1, h1, h2⟩
@@ -294,8 +288,8 @@ theorem bus_derive (store : StoreFn φ) (s : BusSt φ) (ps : List Nat) (hinv : I
       d.maxPersist = s.maxPersist := derive_spec hinv hps hnd
 
 /-- labels, their order and max_persist never change along a history -/
-theorem bus_labels_fixed (store : StoreFn φ) (genKey : Bool) (st : StoreSt) (s s' : BusSt φ) (ops : List BusOp)
-    (hinv : Inv (Any (φ := φ)) s) (h : BusSt.run store genKey st s ops = .ok s') :
+theorem bus_labels_fixed (store : StoreFn φ) (pinnedReader : Bool) (st : StoreSt) (s s' : BusSt φ) (ops : List BusOp)
+    (hinv : Inv (Any (φ := φ)) s) (h : BusSt.run store pinnedReader st s ops = .ok s') :
     s'.labels = s.labels ∧ s'.maxPersist = s.maxPersist :=
   (run_inv (P := Any) (fun _ => trivial) ops s s' hinv (fun _ => trivial) h).2
 
@@ -389,12 +383,12 @@ theorem store_stale_iff {β : Type} (s : StoreSt) (data : β) :
     recorded one (or removed the file), an access that needs at least one frame from the store raises
     StoreFileMutation and returns no data; loaded flags, cells and labels of the Bus are untouched (frames
     already loaded keep being served: `bus_no_internal_error`'s cache-hit path needs no read). -/
-theorem bus_stale_raises (store : StoreFn φ) (genKey : Bool) (st0 : StoreSt) (evs : List FileEvent) (s : BusSt φ)
+theorem bus_stale_raises (store : StoreFn φ) (pinnedReader : Bool) (st0 : StoreSt) (evs : List FileEvent) (s : BusSt φ)
     (key : Key) (ps : List Nat) (hinv : Inv (Any (φ := φ)) s)
     (hst : (st0.events evs).file ≠ st0.seen)
     (hpos : key.positions s.labels.length = .ok ps) (hnd : key.isMulti = true → ps.Nodup)
     (hneed : ∃ p ∈ ps, s.loaded[p]? = some false) :
-    ∃ s', s.extractIloc store genKey (st0.events evs) key = .error (.storeMutation, s') ∧
+    ∃ s', s.extractIloc store pinnedReader (st0.events evs) key = .error (.storeMutation, s') ∧
       s'.loaded = s.loaded ∧ s'.cache = s.cache ∧ s'.labels = s.labels := by
   have hst' : (st0.events evs).file ≠ (st0.events evs).seen := by rw [StoreSt.events_seen]; exact hst
   have hps := SF.C04.key_positions_in_range hpos
@@ -404,7 +398,7 @@ theorem bus_stale_raises (store : StoreFn φ) (genKey : Bool) (st0 : StoreSt) (e
     | int i => obtain ⟨p, hp, _⟩ := SF.C04.int_position hpos; rw [hp]; simp
     | _ => simp [Key.isMulti] at h
   obtain ⟨s', hupd, h1, h2, h3, _⟩ :=
-    updateCache_stale (store := store) (genKey := genKey) (isElement := !key.isMulti) hinv hst' hps hel hneed
+    updateCache_stale (store := store) (pinnedReader := pinnedReader) (isElement := !key.isMulti) hinv hst' hps hel hneed
   refine ⟨s', ?_, h1, h2, h3⟩
   unfold BusSt.extractIloc
   rw [hpos]
